@@ -19,6 +19,9 @@ for pid in props:
         not_app.append({"property_id": pid, "reason": na.get(pid, "check not built yet (work in progress, see DESIGN.md section 12)")})
         continue
     m = importlib.import_module("harness.props." + pid.lower())
+    if not getattr(m, "READY", False):
+        not_app.append({"property_id": pid, "reason": na.get(pid, "check under construction (module present but not marked READY)")})
+        continue
     md = m.MANIFEST
     checks.append({
         "property_id": pid,
@@ -31,6 +34,21 @@ for pid in props:
         "level_note": md["level_note"],
         "technique": md["technique"],
     })
+# merge known/<pid>.json into the single committed known_findings.json
+import glob
+kf_path = os.path.join(VERIF, "known_findings.json")
+kf = json.load(open(kf_path)) if os.path.exists(kf_path) else []
+ids = {k["id"]: n for n, k in enumerate(kf)}
+for p in sorted(glob.glob(os.path.join(VERIF, "known", "C*.json"))):
+    for k in json.load(open(p)):
+        if k["id"] in ids:
+            kf[ids[k["id"]]] = k
+        else:
+            ids[k["id"]] = len(kf)
+            kf.append(k)
+kf.sort(key=lambda k: k["id"])
+with open(kf_path, "w") as f:
+    json.dump(kf, f, indent=1)
 hooks_path = os.path.join(VERIF, "tools", "hooks.json")
 hooks = json.load(open(hooks_path))
 man = {
